@@ -227,7 +227,7 @@ func c09Fold(c *run.C) {
 		opts = []gotype.FoldOption{gotype.Folders(foldRegA, foldRegB)}
 		how = "registered"
 	default:
-		t, v = genTypeValue(r, gen.GoTypeOpts{MaxDepth: 4, Extra: zoo.Supported}, gen.GoValueOpts{BadUTF8: true, SpecialF: true})
+		t, v = genTypeValue(r, gen.GoTypeOpts{MaxDepth: 4, Arrays: true, Extra: zoo.Supported}, gen.GoValueOpts{BadUTF8: true, SpecialF: true})
 	}
 	tags := typeTags(t)
 	c.Begin(goCase{Type: t.String(), Value: valueString(v), How: how, Tags: tags})
